@@ -361,8 +361,18 @@ def run_behaviour(steps, seed_hex="5e" * 64, world=None, private_gens=None, tag=
                 w, path = args[0], norm_path(args[1])
                 if W.has(w, path):
                     n = W.obj(w, path)
+                    # the model rewrites the bookkeeping list arbitrarily; the driver perturbs it THROUGH THE API only
+                    # (an implementation is free to keep its children in any container): the children derived so far
+                    # are requested again in reversed / original / interleaved order, which duplicates and disorders
+                    # whatever record the node keeps of them
                     mode = (si + len(path)) % 3
-                    n.children = [] if mode == 0 else list(reversed(n.children)) if mode == 1 else n.children + n.children
+                    have = [c.index for c in list(getattr(n, "children", []) or []) if hasattr(c, "index")]
+                    order = list(reversed(have)) if mode == 0 else have if mode == 1 else have[1::2] + have[::2]
+                    for ci in order[:6]:
+                        try:
+                            n.ckd(ci)
+                        except Exception:
+                            pass
         W.checks += 1
         if W.full.master.extended_private_key() != W.root_xprv:
             raise Mismatch("purity", "the root key changed during the behaviour")
